@@ -48,10 +48,13 @@ class C02:
         viol = []
         obligations = 0
         offs = {w: (off, path) for w, off, fl, path in r.words}
+        again = r.facts.get('printed_again', ())     # words a remembering macro prints a second time, as generated text
+        seen = set()
         for m in cat.WORD_RE.finditer(plain):
             w = m.group(0)
-            if w not in offs:
+            if w not in offs or (w in again and w in seen):
                 continue
+            seen.add(w)
             off, path = offs[w]
             obligations += 1
             got = nums[m.start():m.end()]
